@@ -10,7 +10,6 @@ import (
 	"github.com/sharedcode/sop/zzvf"
 )
 
-const vfSlot = 7 // slot of the handle stored in the block (any slot behaves alike: C24)
 
 // vfWrittenBlock returns a valid registry block holding one symbolic handle (logical id
 // fixed so that its ideal slot is vfSlot) written by the real marshal code.
